@@ -243,6 +243,11 @@ def write_replay(prop, recipe, ev, codes):
 
 def judge(run, known, rejs, shards, recipe):
     """Turn rejections into KNOWN-FINDING / VIOLATION entries."""
+    # "diag." codes are diagnostics recorded in the evidence, never a verdict
+    diag = [r for r in rejs if r[1].startswith("diag.")]
+    if diag:
+        run.extra.setdefault("diagnostics", []).extend("%s at event %d" % (c, i) for (i, c, _d) in diag[:20])
+    rejs = [r for r in rejs if not r[1].startswith("diag.")]
     if not rejs:
         return
     by_ev = {}
@@ -360,16 +365,62 @@ def main(argv):
 
 
 def replay(a, tmp):
-    """Re-run the single event of a replay file against the real code and
-    validate it again (the event is regenerated from its recipe)."""
+    """Re-run the single event of a replay file against the real code and validate it again.
+    Generated inputs are regenerated from their recipe (family, seed, tier, event id); inputs that
+    came from TLC (alternative encodings, histories, schedules, mutants) are rebuilt from the
+    recorded event itself."""
     body = json.load(open(a.replay))
-    rec = body["recipe"]
+    rec, ev = body["recipe"], body.get("event", {})
     hx = build_harness(tmp)
     out = os.path.join(tmp, "replay")
-    run_hx(hx, list(rec["hx"]) + ["-seed", str(rec["seed"]), "-tier", rec["tier"], "-out", out, "-shards", "1", "-only", str(rec["event"])])
-    shards = shard_files(out)
+    hxargs = list(rec["hx"])
+    vec = os.path.join(tmp, "replay_vector.ndjson")
+    kind = ev.get("ev")
+    one = None
+    if kind == "alt":
+        one = dict(vid=ev["vid"], b=ev["in"], dropped=ev.get("dropped", []))
+    elif kind == "hist":
+        one = dict(h=ev["ops"])
+    elif kind == "poolseq":
+        held, h = {}, []
+        for o in ev["ops"][:len(ev["ops"]) - ev["size"] - 1]:        # without the final drain
+            if o["op"] == "get":
+                held.setdefault(o["g"], []).append(o["obj"])
+                h.append(dict(op="get", g=o["g"], j=0))
+            else:
+                j = held[o["g"]].index(o["obj"]) + 1
+                held[o["g"]].pop(j - 1)
+                h.append(dict(op="ret", g=o["g"], j=j))
+        one = dict(size=ev["size"], h=h)
+    elif kind == "conc":
+        one = dict(s=ev["sched"])
+    elif kind == "hostile" and ev.get("hasin") == 1:
+        one = dict(b=ev["in"], wf=ev.get("wf", -1), mut="replay", at=0)
+    only = rec.get("event")
+    if one is not None:
+        with open(vec, "w") as f:
+            f.write(json.dumps(one) + "\n")
+        if "-vectors" in hxargs:
+            hxargs[hxargs.index("-vectors") + 1] = vec
+        else:
+            hxargs += ["-vectors", vec]
+        only = None
+    args = hxargs + ["-seed", str(rec["seed"]), "-tier", rec["tier"], "-out", out, "-shards", "1"]
+    if only is not None:
+        args += ["-only", str(only)]
+    run_hx(hx, args)
+    shards = shard_files(out, rec.get("shard", "trace"))
+    if kind == "poolseq" or kind == "hist" or kind == "conc":
+        # one vector is replayed on every pool / instance kind: keep the events of the recorded kind
+        keep = os.path.join(tmp, "replay_keep.ndjson")
+        with open(keep, "w") as f:
+            for line in open(shards[0]):
+                e = json.loads(line)
+                if e.get("kind", ev.get("kind")) == ev.get("kind") and e.get("label", "").split("/var")[-1:] == ev.get("label", "").split("/var")[-1:]:
+                    f.write(line)
+        shards = [keep]
     v = validate_shards(tmp, rec.get("module", "TraceCodec"), shards, "replay")
     for r in v["rejs"]:
         log("REJ", r)
-    log("replayed event %s: %d rejections (recorded: %s)" % (rec["event"], len(v["rejs"]), body["codes"]))
+    log("replayed %s event: %d rejections now (recorded: %s)" % (kind, len(v["rejs"]), body["codes"]))
     return 1 if v["rejs"] else 0
